@@ -9,7 +9,8 @@ Line protocol of the dispatch model (C11):
                                               act: o<val> | s<i>:<val or -> | r | e<dest>:<etype>
   blk <i> input <initdef or u> <allowed: - or val,val,…>
   blk <i> counter <modulo or n> <initdef>
-  edge <src> <o|e|x> <dest> <etype> <filters: - or a,r,v,w,d,u,s<val>>
+  blk <i> outfunc <v | f | c<val>>            user function: returns its argument / raises / constant
+  edge <src> <o|e|x|s|r> <dest> <etype> <filters: - or a,r,v,w,d,u,s<val>>
   etype: prefix notation, tokens joined by `/`: 0 | e | x | n:<name> | c/<etype>/<etype>
   init                                        second initialisation pass
   ext <d> <name> <data>                       ExtEvent(d, name).send(**data)
@@ -170,6 +171,18 @@ def handle (s : DState) : List String → DState × String
       | some c => ({ s with circ := c }, "ok")
       | Option.none => (s, "bad-op")
     | _, _, _ => (s, "bad-op")
+  | ["blk", i, "outfunc", f] =>
+    let fs : Option FuncScript := match f.toList with
+      | ['v'] => some .value
+      | ['f'] => some .fail
+      | 'c' :: r => (Val.parse (String.ofList r)).map .const
+      | _ => Option.none
+    match i.toNat?, fs with
+    | some i, some fs =>
+      match setBlk s.circ i (fun x => { x with kind := .outfunc, func := fs }) with
+      | some c => ({ s with circ := c }, "ok")
+      | Option.none => (s, "bad-op")
+    | _, _ => (s, "bad-op")
   | ["edge", src, slot, dest, et, fl] =>
     match src.toNat?, dest.toNat?, parseET et, parseFilters fl with
     | some src, some dest, some et, some fl =>
@@ -178,6 +191,8 @@ def handle (s : DState) : List String → DState × String
         if slot == "o" then some (fun x => { x with onOutput := x.onOutput ++ [e] })
         else if slot == "e" then some (fun x => { x with onEvery := x.onEvery ++ [e] })
         else if slot == "x" then some (fun x => { x with extra := x.extra ++ [e] })
+        else if slot == "s" then some (fun x => { x with onSuccess := x.onSuccess ++ [e] })
+        else if slot == "r" then some (fun x => { x with onError := x.onError ++ [e] })
         else Option.none
       match upd with
       | some f =>
